@@ -300,7 +300,7 @@ func (v *Verifier) callWrites(fn *ssa.Function, cc *ssa.CallCommon, ws map[strin
 		if !c.Trusted {
 			sub := v.writeSetRec(callee, visiting)
 			for n := range sub {
-				if strings.HasPrefix(n, "G|") || strings.HasPrefix(n, "!G|") {
+				if (strings.HasPrefix(n, "G|") || strings.HasPrefix(n, "!G|")) && !objectKeyedGhost[strings.TrimPrefix(n, "!")] {
 					ws[n] = true
 				}
 			}
@@ -473,6 +473,16 @@ func (ex *Exec) cutLoop(fr *Frame, li *loopInfo, pc *Term, st *State, nloops int
 			panic("internal: no sort registered for component " + n)
 		}
 		cur := st.comp(n, srt)
+		if objectKeyedGhost[n] {
+			if ptrs, ok := ex.loopBufferTargets(fr, st, li, cells); ok {
+				// only the buffers written by binary.Write in this loop change
+				for k, p := range ptrs {
+					cur = Store(cur, p, Fresh(fmt.Sprintf("loopbuf%d$%s", k, n), srt.Elem))
+				}
+				st.setComp(n, cur)
+				continue
+			}
+		}
 		if sws, ok := sliceW[n]; ok && !badE[n] {
 			// row-level havoc: only the windows of the loop-invariant slices may change
 			for k, sw := range sws {
@@ -525,6 +535,23 @@ func (ex *Exec) cutLoop(fr *Frame, li *loopInfo, pc *Term, st *State, nloops int
 	for n := range touched {
 		if compPtr[n] && compSorts[n] != nil {
 			tn = append(tn, n)
+		}
+		if compSize[n] && compSorts[n] != nil {
+			// slice offsets, lengths and capacities stored in the heap are sizes
+			srt := compSorts[n]
+			c := st.comp(n, srt)
+			i := Bound("i", srt.Idx)
+			b := C64(int64(SizeBound))
+			if srt.Elem.IsArray() {
+				j := Bound("j", srt.Elem.Idx)
+				sel := Select(Select(c, i), j)
+				if sel.Sort == BV64 {
+					ex.assume(pc, Forall([]*Term{i, j}, And(SLe(C64(0), sel), SLe(sel, b)), []*Term{sel}))
+				}
+			} else if srt.Elem == BV64 {
+				sel := Select(c, i)
+				ex.assume(pc, Forall([]*Term{i}, And(SLe(C64(0), sel), SLe(sel, b)), []*Term{sel}))
+			}
 		}
 	}
 	sort.Strings(tn)
@@ -716,4 +743,58 @@ func (ex *Exec) onlyLocalLinearAppends(fr *Frame, li *loopInfo, n string) bool {
 		}
 	}
 	return found
+}
+
+// loopBufferTargets: the buffers (pointer terms) written by binary.Write calls inside the loop, when every
+// such call writes to a buffer held in a variable the loop does not assign
+func (ex *Exec) loopBufferTargets(fr *Frame, st *State, li *loopInfo, cells map[*ssa.Alloc]bool) ([]*Term, bool) {
+	var out []*Term
+	seen := map[*Term]bool{}
+	for b := range li.body {
+		for _, in := range b.Instrs {
+			c, ok := in.(*ssa.Call)
+			if !ok {
+				continue
+			}
+			callee := c.Call.StaticCallee()
+			if callee == nil {
+				continue
+			}
+			key := fnKey(callee)
+			w, isExt := externWrites[key]
+			touches := false
+			for _, n := range w {
+				if objectKeyedGhost[n] {
+					touches = true
+				}
+			}
+			if !isExt || !touches {
+				continue
+			}
+			if key != "encoding/binary.Write" {
+				return nil, false
+			}
+			mi, ok := c.Call.Args[0].(*ssa.MakeInterface)
+			if !ok {
+				return nil, false
+			}
+			ld, ok := mi.X.(*ssa.UnOp)
+			if !ok {
+				return nil, false
+			}
+			al, ok := ld.X.(*ssa.Alloc)
+			if !ok || al.Heap || cells[al] {
+				return nil, false
+			}
+			v, ok := st.cells[al].(VPtr)
+			if !ok || v.T == nil {
+				return nil, false
+			}
+			if !seen[v.T] {
+				seen[v.T] = true
+				out = append(out, v.T)
+			}
+		}
+	}
+	return out, true
 }
